@@ -84,6 +84,20 @@ CHECKS = {
             "the public node must equal the private node's public projection and the reference CKDpub with own curve arithmetic; "
             "chosen PRF outputs force doubling and wrap corners; every hardened request on public data must raise and store nothing.",
             "DESIGN.md §4 C02", "IL=0 under PRF substitution is excluded (not declared invalid by BIP32; ecdsa fallback refuses it on the public side)"),
+    "C03": ("exploration", "E1 product",
+            "bounded exhaustive product of Unicode mnemonic x passphrase shapes x networks, all seed lengths 0..80, constructor equivalence; own PBKDF2 reference",
+            "The full product of a Unicode mnemonic alphabet (composed/decomposed twins, compatibility forms, CJK with U+3000, "
+            "astral plane, empty) with a passphrase alphabet on both networks is pushed through the real seed function and "
+            "wallet constructors and compared with an own PBKDF2-HMAC-SHA512 loop and HMAC 'Bitcoin seed'; all seed lengths "
+            "0..80; the constructors from entropy/mnemonic/seed bytes/seed hex/xprv and new_wallet must hold one master.",
+            "DESIGN.md §4 C03", "CPython's unicodedata normalisation tables are trusted"),
+    "C11": ("exploration", "E5 gf32",
+            "complete enumeration of all error patterns of weight<=4 through measured syndromes of the real polymod (meet in the middle over all 2.39M weight<=2 patterns), full (version,length) grid, rejection grammar, end-to-end substitutions",
+            "All 18x43 (version,length) pairs x prefixes agree with a reference codec whose generator is derived from the BIP173 "
+            "polynomial; a fault grammar on every legal grid point must be refused; every error pattern of weight<=2 over the 71 "
+            "data positions gets its syndrome from the real bech32_polymod and all 2,390,287 syndromes must be pairwise distinct "
+            "(=> no undetected error of weight<=4); all cross-constant weight-4 patterns are listed and replayed on real addresses.",
+            "DESIGN.md §4 C11", "quick tier: weight-2 syndromes are XORs of directly measured weight-1 syndromes (affinity re-checked on two bases and at every emitted length); thorough tier: 2.39M direct polymod calls"),
 }
 
 NOT_YET = "check not built yet in this session (work in progress; see DESIGN.md §9 build order)"
